@@ -97,6 +97,21 @@ def unused_streams(sc):
     return out
 
 
+def isolation_streams(sc):
+    """Streams whose seed must not influence the results: the unused ones, plus streams of
+    processes that run but were made deterministic by a switch."""
+    kv = {}
+    for l in sc.lines:
+        t = l.split()
+        kv[t[0]] = t[1:]
+    out = unused_streams(sc)
+    if kv["overpop"][0] == "1" and kv["stoch"][3] == "0" and kv["hosts"][0] == "1" and "overpopulation" not in out:
+        # dispersal made deterministic: the overpopulation kernel is the deterministic one, and
+        # with a single host the split of pests among hosts has one outcome
+        out = out + ["overpopulation"] * 3      # weighted: this is the only way to see it
+    return out
+
+
 def check(ctx, replay=None):
     pid = ctx.pid
     ctx.proof = vc.prove(pid)
@@ -172,6 +187,7 @@ def check(ctx, replay=None):
         # soils hand generators to a second component (the soil pool) and release dispersers that
         # go through establishment again: a dedicated share of scenarios with soils
         base += gen.generate(ctx.seed + 900, 200 if thorough else 25, focus_weights=["soil"])
+        base += gen.generate(ctx.seed + 1300, 200 if thorough else 25, focus_weights=["overpop", "det"])
         scenarios, roles = [], []
         for sc in base:
             mode = rng.random()
@@ -182,8 +198,10 @@ def check(ctx, replay=None):
             else:
                 line, seeds = named_line(rng)
                 a = with_seedmode(sc, line)
-                cand = unused_streams(sc)
+                cand = isolation_streams(sc)
                 s = rng.choice(cand)
+                if cand.count("overpopulation") > 1 and rng.random() < 0.8:
+                    s = "overpopulation"   # running but deterministic: the rarest and most telling case
                 line2, _ = named_line(rng, dict(seeds, **{s: seeds[s] + rng.randint(1, 1000)}))
                 # keep all other seeds: rebuild from the first line
                 line2 = re.sub(r"\b%s=\d+" % s, "%s=%d" % (s, seeds[s] + 17), line)
